@@ -236,12 +236,12 @@ Definition simple_comp (k : comp) : bool :=
 
 (* Names: a relative name denotes the list of its non-empty, non-"."
    components; names that are absolute or mention ".." are not acceptable. *)
+Definition is_absolute (s : list N) : bool :=
+  match s with a :: _ => a =? 47 | [] => false end.
 Definition spec_norm (s : list N) : option path :=
-  match s with
-  | 47 :: _ => None
-  | _ => let parts := filter keep_comp (split_slash s) in
-         if existsb is_dotdot parts then None else Some parts
-  end.
+  if is_absolute s then None else
+  let parts := filter keep_comp (split_slash s) in
+  if existsb is_dotdot parts then None else Some parts.
 
 (* the abstract dataset: name -> bytes *)
 Definition amap := list (path * list N).
